@@ -136,3 +136,17 @@ package st
 //@   ensures result != nil && result == nil
 //@ func [ST] BadVacuousAfterAssumedContract
 //@   ensures result == 3
+
+//@ func [ST] OkLoopWritesOwnSlice
+//@   modifies elems(a)
+//@   loop 0 invariant 0 <= i
+//@ func [ST] BadLoopWritesOtherSlice
+//@   modifies elems(a)
+//@   loop 0 invariant 0 <= i
+//@ func [ST] OkLoopFillsFreshMap
+//@   modifies fresh mapsof(map[string]int)
+//@   loop 0 invariant true
+//@   loop 1 invariant true
+//@ func [ST] BadLoopWritesCallerMap
+//@   modifies fresh mapsof(map[string]int)
+//@   loop 0 invariant true
